@@ -715,8 +715,8 @@ macro_rules! search_impl {
             let kv = |n: &Self::Node| (n.key().0, n.value().p);
             let a3 = |e: &Self::Edge| (e.0.key().0, e.1.key().0, e.2);
             macro_rules! finish_search {
-                ($builder:expr) => {
-                    with_methods!($builder, [], cfg, t, fe, fi, $tr, yes, |b| match cfg.res {
+                ($builder:expr, $sel:tt) => {
+                    with_methods!($builder, $sel, cfg, t, fe, fi, $tr, yes, |b| match cfg.res {
                         ResK::Search => {
                             let r = b.search();
                             (SRes::Node(r.as_ref().map(kv)), r.into_iter().collect())
@@ -762,10 +762,10 @@ macro_rules! search_impl {
                 };
             }
             match cfg.kind {
-                Kind::Bfs => finish_search!(root.bfs()),
-                Kind::Dfs => finish_search!(root.dfs()),
-                Kind::PfsMin => finish_search!(root.pfs().min()),
-                Kind::PfsMax => finish_search!(root.pfs().max()),
+                Kind::Bfs => finish_search!(root.bfs(), []),
+                Kind::Dfs => finish_search!(root.dfs(), []),
+                Kind::PfsMin => finish_search!(root.pfs(), [.min()]),
+                Kind::PfsMax => finish_search!(root.pfs(), [.max()]),
                 Kind::Pre => finish_order!(root.$($pre)*, pre),
                 Kind::Post => finish_order!(root.$($post)*, post),
             }
@@ -788,8 +788,8 @@ macro_rules! search_impl {
             let kv = |n: &Self::Node| (n.key().0, n.value().p);
             let a3 = |e: &Self::Edge| (e.0.key().0, e.1.key().0, e.2);
             macro_rules! twice_search {
-                ($builder:expr) => {
-                    with_methods!($builder, [], cfg, t, fe, fi, $tr, yes, |b| {
+                ($builder:expr, $sel:tt) => {
+                    with_methods!($builder, $sel, cfg, t, fe, fi, $tr, yes, |b| {
                         assert!(cfg.res == ResK::Path, "harness: only search_path leaves a search object usable");
                         let r1 = b.search_path().map(|p| make_pathbox!(p));
                         between();
@@ -825,10 +825,10 @@ macro_rules! search_impl {
                 };
             }
             match cfg.kind {
-                Kind::Bfs => twice_search!(root.bfs()),
-                Kind::Dfs => twice_search!(root.dfs()),
-                Kind::PfsMin => twice_search!(root.pfs().min()),
-                Kind::PfsMax => twice_search!(root.pfs().max()),
+                Kind::Bfs => twice_search!(root.bfs(), []),
+                Kind::Dfs => twice_search!(root.dfs(), []),
+                Kind::PfsMin => twice_search!(root.pfs(), [.min()]),
+                Kind::PfsMax => twice_search!(root.pfs(), [.max()]),
                 Kind::Pre => twice_order!(root.$($pre)*, pre),
                 Kind::Post => twice_order!(root.$($post)*, post),
             }
@@ -847,8 +847,8 @@ macro_rules! search_impl {
             let mut fi = |e: &Self::Edge| (cbc.borrow_mut())(e);
             let t: HK = HK(cfg.target.unwrap_or(0));
             macro_rules! finish_path {
-                ($builder:expr) => {
-                    with_methods!($builder, [], cfg, t, fe, fi, $tr, yes, |b| match cfg.res {
+                ($builder:expr, $sel:tt) => {
+                    with_methods!($builder, $sel, cfg, t, fe, fi, $tr, yes, |b| match cfg.res {
                         ResK::Path => b.search_path().map(|p| make_pathbox!(p)),
                         ResK::Cycle => b.search_cycle().map(|p| make_pathbox!(p)),
                         _ => panic!("harness: search_path_obj needs Path or Cycle"),
@@ -856,10 +856,10 @@ macro_rules! search_impl {
                 };
             }
             match cfg.kind {
-                Kind::Bfs => finish_path!(root.bfs()),
-                Kind::Dfs => finish_path!(root.dfs()),
-                Kind::PfsMin => finish_path!(root.pfs().min()),
-                Kind::PfsMax => finish_path!(root.pfs().max()),
+                Kind::Bfs => finish_path!(root.bfs(), []),
+                Kind::Dfs => finish_path!(root.dfs(), []),
+                Kind::PfsMin => finish_path!(root.pfs(), [.min()]),
+                Kind::PfsMax => finish_path!(root.pfs(), [.max()]),
                 _ => unreachable!(),
             }
         }
